@@ -34,7 +34,7 @@ from pandas.io.formats import format as pd_fmt
 from .dominance import DecisionMatrixDominanceAccessor
 from .objectives import Objective
 from .plot import DecisionMatrixPlotter
-from .stats import DecisionMatrixStatsAccessor
+from .stats import DecisionMatrixStatsAccessor, _own_axes
 from ..utils import (
     DiffEqualityMixin,
     deprecated,
@@ -68,7 +68,7 @@ class _ACArray(np.ndarray, abc.Mapping):
     def __getitem__(self, k):
         try:
             if k in self:
-                return self._skc_slicer(k).copy()
+                return _own_axes(self._skc_slicer(k).copy())
             return super().__getitem__(k)
         except IndexError:
             raise IndexError(k)
@@ -394,7 +394,7 @@ class DecisionMatrix(DiffEqualityMixin):
         """Objectives of the criteria as ``Objective`` instances."""
         return pd.Series(
             [Objective.from_alias(a) for a in self._objectives],
-            index=self._data_df.columns,
+            index=self._data_df.columns.copy(deep=True),
             name="Objectives",
             copy=True,
         )
@@ -574,7 +574,7 @@ class DecisionMatrix(DiffEqualityMixin):
             Summary statistics of DecisionMatrix provided.
 
         """
-        return self._data_df.describe(**kwargs)
+        return self.stats.describe(**kwargs)
 
     # CMP =====================================================================
 
